@@ -48,17 +48,25 @@ HOSTS = [
          syms=['line-num == 71', 'line-num <= 72']),
     dict(name='text-matcher', mod='exactly_lib.impls.types.string_matcher.parse_string_matcher', vt='STRING_MATCHER',
          matcher=True, leaves=['is-empty', 'num-lines == 1', 'num-lines > 1', 'equals "a"', 'matches ^a', 'constant true',
-                               'constant false'],
+                               'constant false',
+                               # primitives whose LAST argument is a simple expression (of this or another type)
+                               "-transformed-by char-case -to-upper equals 'A'", "every line : contents equals 'a'",
+                               'any line : line-num > 1'],
          syms=['num-lines == 71', 'num-lines <= 72']),
     dict(name='file-matcher', mod='exactly_lib.impls.types.file_matcher.parse_file_matcher', vt='FILE_MATCHER',
-         matcher=True, leaves=['type file', 'type dir', 'name f.txt', "name '*.txt'", 'constant true', 'constant false'],
+         matcher=True, leaves=['type file', 'type dir', 'name f.txt', "name '*.txt'", 'constant true', 'constant false',
+                               "contents equals 'a'", 'dir-contents num-files == 1', 'dir-contents -recursive is-empty'],
          syms=['name no-such-name', 'type symlink']),
     dict(name='files-matcher', mod='exactly_lib.impls.types.files_matcher.parse_files_matcher', vt='FILES_MATCHER',
-         matcher=True, leaves=['is-empty', 'num-files == 1', 'num-files > 1', 'constant true', 'constant false'],
+         matcher=True, leaves=['is-empty', 'num-files == 1', 'num-files > 1', 'constant true', 'constant false',
+                               '-selection name f.txt num-files == 1', '-selection type dir is-empty',
+                               '-with-pruned name sub num-files > 1', 'every file : type file', 'any file : name g.txt'],
          syms=['num-files == 71', 'num-files <= 72']),
     dict(name='text-transformer', mod='exactly_lib.impls.types.string_transformer.parse_string_transformer',
          vt='STRING_TRANSFORMER', matcher=False,
-         leaves=['identity', 'char-case -to-upper', 'char-case -to-lower', 'replace a b', 'replace b c', 'replace c a'],
+         leaves=['identity', 'char-case -to-upper', 'char-case -to-lower', 'replace a b', 'replace b c', 'replace c a',
+                 'filter line-num == 1', "filter contents equals 'a'", 'replace -at line-num == 1 a b'],
+         struct_only=[6, 7, 8],   # not character maps: used for the structure only, never evaluated
          syms=['replace A c', 'replace B a']),
 ]
 SYM_NAMES = ['SYM_A', 'SYM_B']
@@ -81,7 +89,15 @@ NESTED = [
     ('text-matcher', '-transformed-by', 'text-transformer', [('d', 0)], 'is-empty'),
     ('files-matcher', '-selection', 'file-matcher', [('d', 0)], 'is-empty'),
     ('files-matcher', '-with-pruned', 'file-matcher', [('d', 0)], 'is-empty'),
+    ('files-matcher', 'every file :', 'file-matcher', [0], ''),
+    ('files-matcher', 'any file :', 'file-matcher', [0], ''),
+    ('text-transformer', 'replace -at', 'line-matcher', [('hv', 0, 0)], 'a b'),
+    # the same type again as the last argument
+    ('files-matcher', '-selection name f.txt', 'files-matcher', [0], ''),
+    ('files-matcher', '-with-pruned name sub', 'files-matcher', [0], ''),
+    ('text-matcher', '-transformed-by char-case -to-upper', 'text-matcher', [0], ''),
 ]
+W_CTX = 150
 
 
 # ---------------------------------------------------------------------------------------------
@@ -216,6 +232,8 @@ def n_ops(e):
 def word_source(host, w):
     if w in WORD_STR:
         return WORD_STR[w]
+    if w == 999:
+        return '<unknown-node>'
     if 100 <= w < 200:
         return host['leaves'][w - 100]
     if 200 <= w < 300:
@@ -372,7 +390,14 @@ class HostImpl:
                 self.leaf_tab[mi] = {}
                 self.tsig2leaf[mi] = {}
                 for i, p in self.leaf_prim.items():
-                    r = p.matches_w_trace(self.model(mi))
+                    try:
+                        r = p.matches_w_trace(self.model(mi))
+                    except Exception:
+                        # the leaf cannot be applied to this model (e.g. `contents` on a directory).  An evaluation that
+                        # raises is dropped (see observe); if it does not raise the leaf was not evaluated, and the value
+                        # of an expression does not depend on operands lazy evaluation skips: any placeholder will do.
+                        self.leaf_tab[mi][i] = False
+                        continue
                     self.leaf_tab[mi][i] = bool(r.value)
                     sig = trace_sig(r.trace.render())
                     assert sig not in self.tsig2leaf[mi], 'leaf traces not distinguishable: %s' % sig
@@ -381,6 +406,8 @@ class HostImpl:
         else:
             self.leaf_tab = {}
             for i, p in self.leaf_prim.items():
+                if i - 100 in host.get('struct_only', ()):
+                    continue
                 m = []
                 for ch in ALPHABET:
                     o = p.transform(impl.str_source(ch, self.env)).contents().as_str
@@ -439,10 +466,9 @@ class HostImpl:
             return ('P', W_NOT, self.expr_of_node(n.children[0]))
         if h in ('&&', '||', '|') and not n.details and len(n.children) >= 1 and node_sig(n) not in self.sig2leaf:
             return ('I', OP_WORD[h], [self.expr_of_node(c) for c in n.children])
-        sig = node_sig(n)
-        if sig not in self.sig2leaf:
-            raise ValueError('structure node is neither an operator nor a known leaf: ' + sig)
-        return ('L', self.sig2leaf[sig])
+        # a node that is neither an operator nor a known leaf gets the word 999: the Coq check then fails for the
+        # case (a failing input is reported), it is not a harness error
+        return ('L', self.sig2leaf.get(node_sig(n), 999))
 
     def trace_of(self, mi, n):
         """the matching trace, canonicalised WITHOUT reference to the structure: (label, value, children);
@@ -470,11 +496,24 @@ class HostImpl:
         except SingleInstructionInvalidArgumentException:
             return ('err',)
         consumed = len(source) - len(src.remaining_source)
-        p = self.primitive(sdv)
-        n = p.structure().render()
-        for i in path:
-            n = n.details[i[1]].tree if isinstance(i, tuple) else n.children[i]
+        try:
+            p = self.primitive(sdv)
+            n = p.structure().render()
+            for i in path:
+                n = follow_path(n, i)
+        except Exception:
+            # what was parsed cannot be resolved / has no such part (e.g. a primitive name read as a symbol reference):
+            # an accepted input with an unknown structure - the Coq check fails for the case, not a harness error
+            return ('ok', None, consumed, None)
         return ('ok', self.expr_of_node(n) if not path else n, consumed, p)
+
+
+def follow_path(n, i):
+    if isinstance(i, tuple) and i[0] == 'd':
+        return n.details[i[1]].tree
+    if isinstance(i, tuple) and i[0] == 'hv':
+        return n.details[i[1]].values[i[2]].tree
+    return n.children[i]
 
 
 def rest_tokens(toks, offs, consumed):
@@ -528,13 +567,40 @@ def gen_tables(ctx):
                         truth.append('(%s, %s, %s, %s)' % (cnat(hi), cN(OP_WORD[k]), clist([cbool(a)]), cbool(v)))
     finally:
         shutil.rmtree(tmp, ignore_errors=True)
+    ctx_rows = []
+    by_name = {h['name']: i for i, h in enumerate(HOSTS)}
+    for ci, (outer, before, inner, path, after) in enumerate(NESTED):
+        mod = importlib.import_module(HOSTS[by_name[outer]]['mod'])
+        inner_host = HOSTS[by_name[inner]]
+        a, b = ('constant true', 'constant false') if inner_host['matcher'] else ('identity', 'strip')
+        for op in levels_of(inner_host):
+            src = '%s %s %s %s %s' % (before, a, WORD_STR[op], b, after)
+            try:
+                sdv = mod.parsers(False).full.parse(ParseSource(src))
+            except Exception as ex:
+                from exactly_lib.section_document.element_parsers.instruction_parser_exceptions import \
+                    SingleInstructionInvalidArgumentException
+                if not isinstance(ex, SingleInstructionInvalidArgumentException):
+                    raise
+                ends_before = True    # the operator was not taken as part of the argument (and nothing else wants it)
+            else:
+                n = sdv.resolve(SymbolTable()).structure().render()
+                while n.header in OP_WORD:     # the outer structure: ( CTX a ) op b
+                    n = n.children[0]
+                for i in path:
+                    n = follow_path(n, i)
+                ends_before = n.header not in OP_WORD
+            ctx_rows.append('(%s, %s, %s)' % (cnat(ci), cN(op), cbool(ends_before)))
     txt = ('(* GENERATED on every run by harness/c06.py from the live Grammar objects under /repo/src. Do not edit. *)\n'
            'From Coq Require Import NArith List Bool.\nImport ListNotations.\nLocal Open Scope N_scope.\n\n'
            '(* host type index, (is a matcher grammar, infix operator names per level in order of increasing precedence,\n'
            '   prefix operator names);  words: 0 "("  1 ")"  2 "!"  3 "||"  4 "&&"  5 "|" *)\n'
            'Definition gen_grammars : list (nat * (bool * list (list N) * list N)) :=\n  %s.\n\n'
            '(* host type index, operator, constant operands, value of the expression built by mk_expression *)\n'
-           'Definition gen_truth : list (nat * N * list bool * bool) :=\n  %s.\n' % (clist(rows), clist(truth)))
+           'Definition gen_truth : list (nat * N * list bool * bool) :=\n  %s.\n\n'
+           '(* context that takes a SIMPLE expression as argument (index into harness/c06.py NESTED), operator of the\n'
+           '   argument\'s grammar, does  CTX a op b  leave the operator outside the argument? *)\n'
+           'Definition gen_simple_contexts : list (nat * N * bool) :=\n  %s.\n' % (clist(rows), clist(truth), clist(ctx_rows)))
     common.write_if_changed(os.path.join(common.COQ, 'Gen', 'C06_grammar.v'), txt)
 
 
@@ -625,14 +691,22 @@ def observe(rng, hosts, c):
     if r[0] == 'err':
         c.obs = ('err',)
         return
-    e = r[1]
+    e = r[1] if r[1] is not None else ('L', 999)
     c.obs = ('ok', e, rest_tokens(c.toks, c.offs, r[2]))
     p = r[3]
+    if p is None:
+        c.ev = []
+        return
     c.ev = []
+    if not host['matcher'] and any(w - 100 in host.get('struct_only', ()) for w in leaves_of_expr(e)):
+        return
     for _ in range(rng.randint(1, 3)):   # the SAME parsed object is applied again
         if host['matcher']:
             mi = rng.below(len(hi.models))
-            res = p.matches_w_trace(hi.model(mi))
+            try:
+                res = p.matches_w_trace(hi.model(mi))
+            except Exception:
+                continue   # a leaf that cannot be applied to this model (hard error): no observation
             t = hi.trace_of(mi, res.trace.render())
             assert bool(res.value) == t[1]
             c.ev.append(('match', hi.leaf_tab[mi], t,
@@ -642,6 +716,14 @@ def observe(rng, hosts, c):
             text = ''.join(rng.choice(ALPHABET) for _ in range(rng.randint(0, 8)))
             out = p.transform(impl.str_source(text, hi.env)).contents().as_str
             c.ev.append(('trans', hi.leaf_tab, text, out, {'input': text, 'output': out}))
+
+
+def leaves_of_expr(x):
+    if x[0] == 'L':
+        return [x[1]]
+    if x[0] == 'P':
+        return leaves_of_expr(x[2])
+    return [w for y in x[2] for w in leaves_of_expr(y)]
 
 
 def new_case(hi, simple, must_cur, toks, gen, follow, kind):
@@ -732,7 +814,7 @@ def generate(ctx, res, hosts):
             if r[0] == 'err':
                 c.obs = ('err',)
             else:
-                c.obs = ('ok', hin.expr_of_node(r[1]), rest_tokens(c.toks, c.offs, r[2]))
+                c.obs = ('ok', hin.expr_of_node(r[1]) if r[1] is not None else ('L', 999), rest_tokens(c.toks, c.offs, r[2]))
             cases.append(c)
     return cases
 
@@ -832,9 +914,45 @@ def apply_maps(host_impl, e, text):
     return text
 
 
-def generate_e2e(ctx, hosts, tmp):
+CONTEXT_PREFIXES = ['-selection name f.txt', '-selection type dir', '-with-pruned name sub', '-transformed-by char-case -to-upper',
+                    'every line :', 'any line :', 'every file :', 'any file :', 'dir-contents -recursive', 'dir-contents',
+                    'line-num', 'num-lines', 'num-files', 'contents']
+
+
+def context_split(src):
+    """(CTX, ARG) if the leaf is a primitive whose last argument is itself a (simple) expression, else None"""
+    for pfx in CONTEXT_PREFIXES:
+        if src.startswith(pfx + ' '):
+            return pfx, src[len(pfx) + 1:]
+    return None
+
+
+def distinguishing_triples(e2e, hi, tab):
+    """(context leaf C = CTX ARG, op, leaf R) for which the real program gives the explicitly parenthesised OTHER reading
+    CTX ( ARG op R ) a verdict different from the value of ( CTX ARG ) op R: inputs on which a parser that lets the
+    argument swallow the operator changes the verdict"""
+    host = HOSTS[hi]
+    _, simple, pre, post, _ = [x for x in E2E if x[0] == hi][0]
+    out = []
+    if not host['matcher']:
+        return out
+    for c in sorted(tab):
+        sp = context_split(word_source(host, c)) if 100 <= c < 200 else None
+        if sp is None:
+            continue
+        for op in levels_of(host):
+            for r in sorted(tab):
+                expected = (tab[c] and tab[r]) if op == W_AND else (tab[c] or tab[r])
+                alt = '%s ( %s %s %s )' % (sp[0], sp[1], WORD_STR[op], word_source(host, r))
+                v = e2e.run(hi, pre + (('( %s )' % alt) if simple else alt))
+                if v != ('VPass' if expected else 'VFail'):
+                    out.append((c, op, r))
+    return out
+
+
+def generate_e2e(ctx, hosts, tmp, res_counts):
     rng = ctx.rng
-    n_per = SIZES.get('override_e2e') or (45 if ctx.quick else 500)
+    n_per = SIZES.get('override_e2e') or (60 if ctx.quick else 500)
     e2e = E2e(tmp)
     out = []
     for hi, simple, pre, post, _ in E2E:
@@ -849,6 +967,8 @@ def generate_e2e(ctx, hosts, tmp):
                 c.verdict = e2e.run(0, c.instruction)
                 out.append(c)
         usable = sorted(tab) if host['matcher'] else sorted(hosts[hi].leaf_tab)
+        triples = distinguishing_triples(e2e, hi, tab)
+        res_counts['end-to-end: distinguishing (CTX ARG, op, REST) triples, ' + host['name']] = len(triples)
         if len(usable) < 4:
             raise RuntimeError('end-to-end: too few leaves usable for %s: %r' % (host['name'], usable))
         n_lv = len(levels_of(host))
@@ -860,7 +980,19 @@ def generate_e2e(ctx, hosts, tmp):
                     return leaf_ok(x[2])
                 return all(leaf_ok(y) for y in x[2])
             while True:
-                e = gen_expr(rng, host, rng.weighted([(1, 3), (2, 6), (3, 4)]), rng.randint(2, 3))
+                if triples and rng.chance(0.5):
+                    # CTX ARG op REST with REST chosen so that the two readings give different verdicts
+                    # (context first, so that every context gets the same share)
+                    cw = rng.choice(sorted({t[0] for t in triples}))
+                    cw, op, rw = rng.choice([t for t in triples if t[0] == cw])
+                    operands = [('L', cw), ('L', rw)]
+                    if rng.chance(0.4):
+                        operands.append(gen_expr(rng, host, rng.randint(0, 1), 2))
+                    e = ('I', op, operands)
+                    if rng.chance(0.25):
+                        e = ('P', W_NOT, e)
+                else:
+                    e = gen_expr(rng, host, rng.weighted([(1, 3), (2, 6), (3, 4)]), rng.randint(2, 3))
                 if leaf_ok(e):
                     break
             k = n_lv if simple else 0
@@ -888,6 +1020,119 @@ def generate_e2e(ctx, hosts, tmp):
     return out
 
 
+# ---------------------------------------------------------------------------------------------
+# context stream:  CTX ARG op REST  (the argument of CTX is a SIMPLE expression: the operator is not part of it)
+# ---------------------------------------------------------------------------------------------
+class CtxCase:
+    __slots__ = ('outer', 'inner', 'context', 'toks', 'gen', 'post', 'source', 'obs')
+
+    def describe(self):
+        hin, hout = HOSTS[self.inner], HOSTS[self.outer]
+        d = {'stream': 'context', 'context': '%s: %s SIMPLE-%s' % (hout['name'], self.context, hin['name'].upper()),
+             'source': self.source, 'argument_generated': src_of_expr(hin, erase(self.gen))}
+        if self.obs is None:
+            d['observed'] = 'syntax error'
+        else:
+            d['observed'] = {'argument': src_of_expr(hin, self.obs[0]),
+                             'outer_structure (context = CTX)': src_of_ctx_expr(hout, self.obs[1]),
+                             'unconsumed_tokens': len(self.obs[2])}
+        return d
+
+    def term(self):
+        obs = 'None' if self.obs is None else '(Some (%s, %s, %s))' % (c_expr(self.obs[0]), c_expr(self.obs[1]), c_toks(self.obs[2]))
+        return '(CtxCase %s %s %s (Some (%s, %s)) %s)' % (cbool(HOSTS[self.outer]['matcher']), cbool(HOSTS[self.inner]['matcher']),
+                                                          c_toks(self.toks), c_dexpr(self.gen), c_toks(self.post), obs)
+
+
+def src_of_ctx_expr(host, e):
+    if e[0] == 'L':
+        return 'CTX' if e[1] == W_CTX else word_source(host, e[1])
+    if e[0] == 'P':
+        return '! ' + src_of_ctx_expr(host, e[2])
+    return '( ' + (' ' + WORD_STR[e[1]] + ' ').join(src_of_ctx_expr(host, x) for x in e[2]) + ' )'
+
+
+def generate_ctx(ctx, hosts):
+    from exactly_lib.section_document.parse_source import ParseSource
+    from exactly_lib.section_document.element_parsers.instruction_parser_exceptions import \
+        SingleInstructionInvalidArgumentException
+    rng = ctx.rng
+    n_per = SIZES.get('override_ctx') or (40 if ctx.quick else 400)
+    by_name = {h['name']: i for i, h in enumerate(HOSTS)}
+    out = []
+    for outer, before, inner, path, after in NESTED:
+        if after:
+            continue   # the argument is not the last one: covered by the 'nested' stream and by the (T) table
+        oi, ii = by_name[outer], by_name[inner]
+        ho, hin = hosts[oi], hosts[ii]
+        hout, hinn = HOSTS[oi], HOSTS[ii]
+        n_lv = len(levels_of(hinn))
+        alone = 'constant true' if hinn['matcher'] else 'identity'
+        ctx_header = ho.primitive(ho.parse_alone(before + ' ' + alone)).structure().render().header
+        assert ctx_header not in OP_WORD
+
+        def outer_expr(n, found):
+            if n.header == ctx_header and not found:
+                found.append(n)
+                return ('L', W_CTX)
+            if n.header == '!' and len(n.children) == 1 and not n.details:
+                return ('P', W_NOT, outer_expr(n.children[0], found))
+            if n.header in ('&&', '||', '|') and not n.details and n.children and node_sig(n) not in ho.sig2leaf:
+                return ('I', OP_WORD[n.header], [outer_expr(c, found) for c in n.children])
+            return ('L', ho.sig2leaf.get(node_sig(n), 999))
+
+        for _ in range(n_per):
+            e = gen_expr(rng, hinn, rng.randint(0, 3), rng.randint(2, 3), syms=False)
+            d = decorate(rng, hinn, e, n_lv, rng.choice([0.0, 0.2, 0.5]), rng.choice([0.0, 0.4]))
+            if rng.chance(0.75):
+                d = make_permitted(hinn, d, False, n_lv)
+            op = rng.choice(sorted(set(levels_of(hout)) | set(levels_of(hinn))))
+            rest_host = hout if op in levels_of(hout) else hinn
+            rest_src = rng.choice(['constant true', 'constant false'] if rest_host['matcher'] else ['identity', 'replace a b'])
+            rest_id = 100 + rest_host['leaves'].index(rest_src)
+            nl_after_op = rng.chance(0.3)
+            c = CtxCase()
+            c.outer, c.inner, c.context, c.gen = oi, ii, before, d
+            c.post = [('w', False, op)] + ([('nl',)] if nl_after_op else []) + [('w', False, rest_id)]
+            arg_toks = render(d)
+            c.toks = arg_toks + c.post
+            src, offs = to_source(rng, hinn, arg_toks)
+            src = src.rstrip(' ')
+            pre = before + ' '
+            offs = [o + len(pre) for o in offs]
+            text = pre + src + ' '
+            offs.append(len(text))
+            text += WORD_STR[op]
+            if nl_after_op:
+                offs.append(len(text))
+                text += '\n  '
+            else:
+                text += ' '
+            offs.append(len(text))
+            text += rest_src
+            c.source = text
+            psrc = ParseSource(text)
+            try:
+                sdv = ho.mod.parsers(False).full.parse(psrc)
+            except SingleInstructionInvalidArgumentException:
+                c.obs = None
+            else:
+                consumed = len(text) - len(psrc.remaining_source)
+                found = []
+                oe, ie = ('L', 999), ('L', 999)
+                try:
+                    oe = outer_expr(ho.primitive(sdv).structure().render(), found)
+                    n = found[0]
+                    for i in path:
+                        n = follow_path(n, i)
+                    ie = hin.expr_of_node(n)
+                except Exception:
+                    pass   # unknown structure: the Coq check fails for the case
+                c.obs = (ie, oe, rest_tokens(c.toks, offs, consumed))
+            out.append(c)
+    return out
+
+
 def nontrivial_key(c):
     """>= 2 different operators, or a redundant parenthesis, or a line break inside the expression"""
     if c.gen is None:
@@ -907,7 +1152,9 @@ def run(ctx, res):
         env = impl.app_env(tmp)
         hosts = [HostImpl(h, os.path.join(tmp, 'h%d' % i), env) for i, h in enumerate(HOSTS)]
         cases = generate(ctx, res, hosts)
-        ecases = generate_e2e(ctx, hosts, tmp)
+        e2e_counts = {}
+        ecases = generate_e2e(ctx, hosts, tmp, e2e_counts)
+        xcases = generate_ctx(ctx, hosts)
     finally:
         shutil.rmtree(tmp, ignore_errors=True)
     res.rule = ('random trees (depth <= 4, width <= 4) over the real primitives and two defined symbols of each of the six host '
@@ -925,13 +1172,18 @@ def run(ctx, res):
         k = nontrivial_key(c)
         if k is not None:
             res.nontrivial.add(k)
+    res.extra['end_to_end_distinguishing_triples'] = e2e_counts
     for c in ecases:
         res.count('stream: end-to-end')
         res.count('end-to-end verdict: ' + c.verdict[1:])
         res.count('end-to-end host: ' + HOSTS[c.hi]['name'])
         if c.gen is not None and (len(n_ops(erase(c.gen))) >= 2 or any(t[0] == 'nl' for t in c.toks)):
             res.nontrivial.add(('e2e', c.hi, repr(c.gen)))
-    res.evaluations = len(cases) + len(ecases)
+    for c in xcases:
+        res.count('stream: context (CTX ARG op REST)')
+        res.count('context observed: ' + ('syntax error' if c.obs is None else 'accepted'))
+        res.nontrivial.add(('ctx', c.outer, c.context, repr(c.gen), repr(c.post)))
+    res.evaluations = len(cases) + len(ecases) + len(xcases)
     res.samples = [c.describe() for c in (cases[0], cases[3], cases[len(CORPUS) + 5], cases[len(cases) // 2], cases[-1])]
     cb, pb, errs = common.run_shards('C06', ['Model.Expr', 'Spec.C06'], 'check_case', [c.term() for c in cases])
     res.errors += errs
@@ -950,6 +1202,17 @@ def run(ctx, res):
     for i in cb:
         res.disagreements.append(Failure('correspondence', cases[i].describe(),
                                          'the model of the parser / of the combinators gives a different result'))
+    cb, pb, errs = common.run_shards('C06', ['Model.Expr', 'Spec.C06'], 'check_ctxcase', [c.term() for c in xcases], tag='ctx')
+    res.errors += errs
+    res.samples.append(xcases[len(xcases) // 2].describe())
+    for i in pb:
+        res.prop_failures.append(Failure('property', xcases[i].describe(),
+                                         'in CTX ARG op REST the argument of the context is not the simple expression ARG, or '
+                                         'the outer expression is not ( CTX ARG ) op REST'))
+    for i in cb:
+        res.disagreements.append(Failure('correspondence', xcases[i].describe(),
+                                         'the composition (simple parser of the argument, then the outer parser) predicts a '
+                                         'different result'))
     cb, pb, errs = common.run_shards('C06', ['Model.Expr', 'Spec.C06'], 'check_ecase', [c.term() for c in ecases], tag='e2e')
     res.errors += errs
     res.samples.append(ecases[len(ecases) // 3].describe())
@@ -968,6 +1231,7 @@ def search(ctx, res):
     a larger run of the same generators, with more arbitrary layouts and malformed inputs"""
     SIZES['override'] = (600, 1500, 1500, 100)
     SIZES['override_e2e'] = 120
+    SIZES['override_ctx'] = 120
     try:
         r2 = common.Result()
         run(ctx, r2)
